@@ -38,6 +38,7 @@ class Ctx:
         self.repo = None
         self.t0 = time.time()
         self.quick = tier == "quick"
+        self.driver = "driver"
 
     # -- bookkeeping -------------------------------------------------------------
     def count(self, name, n=1):
@@ -66,7 +67,7 @@ class Ctx:
         return contextlib.redirect_stdout(io.StringIO())
 
     def lean(self, lines):
-        return wire.run_driver(lines)
+        return wire.run_driver(lines, exe_name=self.driver)
 
     def elapsed(self):
         return time.time() - self.t0
@@ -176,9 +177,16 @@ def main(argv):
         except Exception as e:  # construct outside the translator's grammar = broken tie
             ctx.break_("translator:%s" % getattr(tr, "__name__", "?"), "%s: %s" % (type(e).__name__, e))
     modules = list(getattr(mod, "LEAN_MODULES", []))
-    ok, log, secs = leanbuild.build(modules + ["driver"])
+    ctx.driver = getattr(mod, "DRIVER", None)
+    drv = [ctx.driver] if ctx.driver else []
+    exe = os.path.join(ROOT, "lean", ".lake", "build", "bin", ctx.driver or "-")
+    if os.path.exists(exe):
+        os.unlink(exe)  # never run a stale model: the driver is rebuilt from the current sources
+    ok, log, secs = leanbuild.build(modules + drv)
+    if not ok and drv:
+        leanbuild.build(drv)  # the proofs may be broken while the executable model still builds
     ctx.extra["lake_build_s"] = round(secs, 1)
-    driver_ok = os.path.exists(os.path.join(ROOT, "lean", ".lake", "build", "bin", "driver"))
+    driver_ok = (not drv) or os.path.exists(exe)
     if not ok:
         errs = [l for l in log.split("\n") if "error" in l.lower()][:20]
         ctx.break_("lake build " + " ".join(modules), "\n".join(errs) or log[-1500:])
@@ -203,7 +211,7 @@ def main(argv):
     checker_cmd = "cd lean && lake build %s && lake env lean <#print axioms of %d theorems>" % (" ".join(modules), len(obligations))
 
     # 4./5. correspondence + executable property oracle on the implementation
-    if driver_ok or ok:
+    if driver_ok:
         try:
             mod.correspondence(ctx)
         except Exception as e:
